@@ -11,7 +11,7 @@ VARIABLES l, qdim, qshape, rel, bad, stat
 vars == <<l, qdim, qshape, rel, bad, stat>>
 Init == /\ l = 1 /\ qdim = ("Number" :> DZero) /\ qshape = ("Number" :> 1) /\ rel = <<>> /\ bad = <<>>
         /\ stat = [rels |-> 0, twins |-> 0, pairs |-> 0, pairs_decided |-> 0, defs |-> 0, other |-> 0,
-                 equiv |-> 0, twinnum |-> 0, inverse |-> 0, tensordefs |-> 0, monoreal |-> 0, tensordefreal |-> 0, opnative |-> 0]
+                 equiv |-> 0, twinnum |-> 0, inverse |-> 0, tensordefs |-> 0, monoreal |-> 0, tensordefreal |-> 0, opnative |-> 0, solved |-> 0]
 IsEvent(e) == l <= Len(Facts) /\ Facts[l].e = e /\ l' = l + 1
 V(cls, key, detail) == [cls |-> cls, key |-> key, detail |-> detail]
 Judge(checks) == bad' = bad \o [i \in 1..Len(SelectSeq(checks, LAMBDA c : ~c[1])) |->
@@ -112,6 +112,14 @@ TInverse == LET r == Facts[l] IN
   /\ stat' = [stat EXCEPT !.inverse = @ + 1]
   /\ UNCHANGED <<qdim, qshape, rel>>
 
+(* C18: a relation among exactly the quantity types of a named definition states the same identity, solved for another variable *)
+TSolved == LET r == Facts[l] IN
+  /\ IsEvent("Solved") /\ r.def \in DOMAIN Definition /\ r.rel \in DOMAIN rel
+  /\ LET d == Definition[r.def]  x == rel[r.rel] IN
+     /\ {x.ret} \cup {x.args[i] : i \in 1..Len(x.args)} = {d.ret} \cup {d.args[i] : i \in 1..Len(d.args)}
+     /\ Judge(<< <<x.cls \notin {"mono", "linear"} \/ SolvedOK(d, x.ret, x.args, Fp(x)), V("definition_solved_form", r.def, x.name)>> >>)
+  /\ stat' = [stat EXCEPT !.solved = @ + 1]
+  /\ UNCHANGED <<qdim, qshape, rel>>
 (* C18 tensor-valued definitions on integer tensors (exact): recorded through the relations evaluator *)
 TTensorDef == LET r == Facts[l] IN
   /\ IsEvent("TensorDef") /\ r.rel \in DOMAIN rel
@@ -141,7 +149,7 @@ TTensorDefReal == LET r == Facts[l] IN
 TFinish == /\ l = Len(Facts) + 1 /\ l' = l + 1
            /\ JsonSerialize(IOEnv.OUT, [bad |-> bad, stat |-> stat])
            /\ UNCHANGED <<qdim, qshape, rel, bad, stat>>
-Next == TQDim \/ TRel \/ TTwin \/ TPair \/ TDef \/ TEquiv \/ TOpNative \/ TTwinNum \/ TInverse \/ TTensorDef \/ TMonoReal \/ TTensorDefReal \/ TFinish
+Next == TQDim \/ TRel \/ TTwin \/ TPair \/ TDef \/ TEquiv \/ TOpNative \/ TTwinNum \/ TInverse \/ TSolved \/ TTensorDef \/ TMonoReal \/ TTensorDefReal \/ TFinish
 Spec == Init /\ [][Next]_vars
 Accepted == TLCGet("stats").diameter - 2 = Len(Facts)
 =============================================================================
